@@ -56,7 +56,7 @@ class Allow:
             return "clock read (observation)"
         local = kr == self.f.crate
         rd = (fn.get("resolved") or {}).get("def") or d
-        if local and (d.startswith("metrics::") or nm == "metrics_collector" or rd.startswith("<metrics::") or "metrics::" in rd):
+        if local and (d.startswith("metrics::") or d in anchors.metrics_accessors(self.f) or rd.startswith("<metrics::") or "metrics::" in rd):
             self.erased_local.add(rd)
             return None if self.strict_local and rd != body.defn else "metrics (observation)"
         if d in ("actor_ref::ActorRef::<T>::identity", "actor_ref::ActorWeak::<T>::identity", "Identity::name", "Identity::new"):
@@ -105,7 +105,7 @@ class Allow:
                     pl = a.get("move") or a.get("copy")
                     if pl and pl["l"] == dest and not pl["p"]:
                         uses.append(("arg", callee(t)))
-        # every reference to it goes to metrics_collector
+        # every reference to it goes to a metrics accessor
         refs = [u[1] for u in uses if u[0] == "ref"]
         if any(u[0] in ("use", "arg") for u in uses):
             return False
@@ -118,8 +118,8 @@ class Allow:
                     for a in t["args"]:
                         pl = a.get("move") or a.get("copy")
                         if pl and pl["l"] == r:
-                            fed.append((fn_of(b2).get("name")))
-            if not fed or any(x != "metrics_collector" for x in fed):
+                            fed.append((fn_of(b2).get("def")))
+            if not fed or any(x not in anchors.metrics_accessors(self.f) for x in fed):
                 ok = False
         return ok and bool(refs)
 
